@@ -24,7 +24,8 @@ func init() {
 func init() {
 	properties["C01"] = &propSpec{ID: "C01",
 		Bounds: []string{
-			"modes 16 and 32; 36 instruction forms (MOV r/r r/imm r/m m/r m/imm Sreg CRn acc-moffs; ADD SUB CMP AND OR XOR r/r r/imm r/m m/r m/imm; NOT; SHL SHR SAR; IMUL; IN OUT; PUSH POP reg Sreg imm mem; INT; RET; LGDT) x widths 8/16/32",
+			"72 no-operand mnemonics (flags, stack-frame, BCD, system, string, PUSHA/PUSHF/IRET families with and without W/D suffix, CBW/CWDE/CWD/CDQ) x both modes: decoded name, operand size fixed by the name, no stray 66h, label behind at the real offset",
+			"modes 16 and 32; 38 instruction forms (MOV r/r r/imm r/m m/r m/imm Sreg<->r16 Sreg<->m16 CRn acc-moffs; ADD SUB CMP AND OR XOR r/r r/imm r/m m/r m/imm; NOT; SHL SHR SAR; IMUL; IN OUT; PUSH POP reg Sreg imm mem; INT; RET; LGDT) x widths 8/16/32",
 			"immediates: signed 64-bit solver variables restricted to decimal literals of 1..10 digits (quick: digit classes 1,3,5,10); ports/counts/INT numbers 0..255",
 			"registers: quick = one position sweeps all 8 registers against one fixed partner, immediate forms use 4 registers incl. the accumulator; thorough = all 8 in every position",
 			"memory operands: one representative shape per addressing class (C02 covers the address itself)",
